@@ -23,6 +23,7 @@ ACTION_TYPES = [
 ]
 ROUTER_TYPES = ["wait_for_response", "wait_for_response", "split_by_value", "split_by_group", "split_random",
                 "start_new_flow", "call_webhook", "transfer_airtime"]
+NO_ARG_TESTS = ["has_number", "has_text", "has_email", "has_date", "has_time", "has_state", "has_error"]
 TEST_TYPES = ["", "", "", "has_any_word", "has_phrase", "has_only_phrase", "has_beginning", "has_number_eq", "has_pattern"]
 # ordinary answers, plus words whose generated category name collides with a reserved one
 # ("Other", "Expired", "Success", …): they are ordinary condition values all the same
@@ -37,8 +38,9 @@ def field_key(name: str) -> str:
 class SheetGen:
     """Builds one core sheet row by row, tracking what each earlier row may still emit."""
 
-    def __init__(self, rng: random.Random, n_rows: int, noop: bool = False):
+    def __init__(self, rng: random.Random, n_rows: int, noop: bool = False, dups: bool = False):
         self.rng = rng
+        self.dups = dups   # re-declared tests and shared category names (legal, but outside C02's single-meaning sheets)
         self.n = n_rows
         self.rows: list[dict] = []
         self.nodes: list[dict] = []   # info about node-producing rows: id, type, used tests, var, ...
@@ -97,10 +99,24 @@ class SheetGen:
 
     def _fresh_test(self, src, cond):
         rng = self.rng
+        if self.dups and src.get("declared") and rng.random() < 0.4:
+            # the same test once more (same type and argument), under no / the same / another / a shared name
+            ty, val, name = rng.choice(src["declared"])
+            cond["type"], cond["value"] = ty, val
+            names = [n for _, _, n in src["declared"] if n]
+            cond["name"] = rng.choice(["", name, "Again%d" % len(src["declared"]), "Again%d" % len(src["declared"])] + names)
+            src["declared"].append((ty, val, cond["name"]))
+            return cond
         for _ in range(20):
             ty = rng.choice(TEST_TYPES)
             val = rng.choice(WORDS)
-            key = (ty or "has_any_word", val)
+            if src["type"] != "no_op" and rng.random() < 0.15:
+                # a test that takes no argument: the condition cell is blank (or carries a value that only
+                # names the category), the edge is conditional all the same
+                ty = rng.choice(NO_ARG_TESTS)
+                val = "" if rng.random() < 0.7 else val
+            # a test is identified by its type and argument; a no-argument test by its type alone
+            key = (ty or "has_any_word", "" if ty in NO_ARG_TESTS else val)
             if key in src["tests"]:
                 continue
             if val.lower() == "no response":
@@ -108,9 +124,15 @@ class SheetGen:
             src["tests"].add(key)
             cond["type"] = ty
             cond["value"] = val
-            if rng.random() < 0.2:
+            if rng.random() < (0.45 if self.dups else 0.2):
                 src["ncat"] = src.get("ncat", 0) + 1
                 cond["name"] = f"Cat{src['ncat']}"
+            elif self.dups and rng.random() < 0.6:
+                names = [n for _, _, n in src.get("declared", []) if n]
+                if names:
+                    cond["name"] = rng.choice(names)      # two different tests, one category
+            if self.dups:
+                src.setdefault("declared", []).append((ty, val, cond["name"]))
             return cond
         return {"value": "", "variable": "", "type": "", "name": ""}
 
@@ -342,8 +364,8 @@ class SheetGen:
             self._edges = saved
 
 
-def gen_core_sheet(rng: random.Random, n_rows: int, noop: bool = False) -> list[dict]:
-    return SheetGen(rng, n_rows, noop).build()
+def gen_core_sheet(rng: random.Random, n_rows: int, noop: bool = False, dups: bool = False) -> list[dict]:
+    return SheetGen(rng, n_rows, noop, dups).build()
 
 
 # ------------------------------------------------------------------ reference table (rows → kind/act/operand)
